@@ -1221,3 +1221,56 @@ example : PLeaf.containsSet 0 false (.interval [0, 0] [2, 2]) (.interval [1/2, 0
 example : (PSet.union [.leaf .integers, .cartesian [.leaf .real, .union [.leaf (.strings 1),
       .leaf (.finite [.pynone])]]]).mem (.tuple [.sc (.real (1/2)), .sc .pynone]) = true := by
   decide +kernel
+
+/-! ## round 5: `IntervalProd.approx_equals` -/
+
+/-- `IntervalProd.approx_equals` between interval products of EQUAL dimension (any dimension,
+finite bounds, distinct objects): never raises; at `atol = 0` it is exactly `__eq__` (equal end
+points); it is symmetric for every `atol`, reflexive for `atol ≥ 0` and monotone in `atol`.
+Executed definition `intervalApproxEq` (driver op `approxeq`, stream `approxeq/*`).  For
+different dimensions see `C20.interval_approx_equals_ndim_fails` (finding C20-F18). -/
+theorem C20.interval_approx_equals_laws (lo hi lo' hi' : List Rat) (hl : lo'.length = lo.length)
+    (h1 : hi.length = lo.length) (h2 : hi'.length = lo'.length) :
+    (∀ atol, (intervalApproxEq atol lo hi lo' hi').isSome = true) ∧
+    (intervalApproxEq 0 lo hi lo' hi' = some true ↔ lo = lo' ∧ hi = hi') ∧
+    (∀ atol, intervalApproxEq atol lo hi lo' hi' = intervalApproxEq atol lo' hi' lo hi) ∧
+    (∀ atol, 0 ≤ atol → intervalApproxEq atol lo hi lo hi = some true) ∧
+    (∀ atol atol', atol ≤ atol' → intervalApproxEq atol lo hi lo' hi' = some true →
+      intervalApproxEq atol' lo hi lo' hi' = some true) := by
+  have e1 : lo.length = lo'.length := hl.symm
+  have e2 : hi.length = hi'.length := by omega
+  have form : ∀ atol, intervalApproxEq atol lo hi lo' hi' =
+      some (closeAll atol lo lo' && closeAll atol hi hi') := by
+    intro atol
+    simp only [intervalApproxEq, npAllClose, e1, e2, if_true]
+    cases closeAll atol lo lo' <;> simp
+  have form' : ∀ atol, intervalApproxEq atol lo' hi' lo hi =
+      some (closeAll atol lo' lo && closeAll atol hi' hi) := by
+    intro atol
+    simp only [intervalApproxEq, npAllClose, e1.symm, e2.symm, if_true]
+    cases closeAll atol lo' lo <;> simp
+  refine ⟨fun atol => by simp [form], ?_, ?_, ?_, ?_⟩
+  · rw [form]; simp [closeAll_zero lo lo' e1, closeAll_zero hi hi' e2]
+  · intro atol; rw [form, form', closeAll_symm atol lo lo', closeAll_symm atol hi hi']
+  · intro atol ha
+    simp [intervalApproxEq, npAllClose, closeAll_refl atol ha]
+  · intro atol atol' hle
+    rw [form, form]
+    simp only [Option.some.injEq, Bool.and_eq_true]
+    rintro ⟨a, b⟩
+    exact ⟨closeAll_mono hle _ _ a, closeAll_mono hle _ _ b⟩
+
+/-- Counterexamples on the model of the current code (finding C20-F18: no `ndim` guard, NumPy
+broadcasting): a 2-d against a 3-d interval product RAISES, a 1-d interval product is
+"approximately equal" to a 2-d one; and (no defect, but a limit of the notion) for `atol > 0`
+`approx_equals` is not transitive. -/
+theorem C20.interval_approx_equals_ndim_fails :
+    intervalApproxEq 9 [0, 0] [1, 1] [0, 0, 0] [1, 1, 1] = none ∧
+    intervalApproxEq 9 [3/4] [3/4] [0, 0] [1, 1] = some true ∧
+    intervalApproxEq (1/4) [0] [1] [1/4] [1] = some true ∧
+    intervalApproxEq (1/4) [1/4] [1] [1/2] [1] = some true ∧
+    intervalApproxEq (1/4) [0] [1] [1/2] [1] = some false := by
+  decide +kernel
+
+/-- non-vacuity: `[0,1]×[0,2]` and the same box shifted by 1/8 in one end point at `atol = 1/4` -/
+example : intervalApproxEq (1/4) [0, 0] [1, 2] [0, 1/8] [1, 2] = some true := by decide +kernel
